@@ -6,6 +6,7 @@ import (
 	"math/big"
 	"net"
 	"runtime"
+	"sort"
 	"testing"
 	"time"
 
@@ -61,7 +62,7 @@ func genC20(t *rapid.T) c20Plan {
 			NoWait:  rapid.IntRange(0, 9).Draw(t, "nowait") == 0}
 	}
 	return c20Plan{Network: rapid.SampledFrom([]string{"history", "state", "beacon"}).Draw(t, "net"), Table: table, Ops: ops,
-		Source: rapid.SampledFrom([]string{"none", "intable", "intable", "notintable"}).Draw(t, "src"), SrcIdx: rapid.IntRange(0, 300).Draw(t, "srcidx"),
+		Source: rapid.SampledFrom([]string{"none", "intable", "covered", "covered", "notintable"}).Draw(t, "src"), SrcIdx: rapid.IntRange(0, 300).Draw(t, "srcidx"),
 		KeySeed: rapid.Uint32().Draw(t, "key"), Batch: rapid.SampledFrom([]int{1, 1, 2, 5, 64}).Draw(t, "batch")}
 }
 
@@ -323,6 +324,35 @@ func runC20(p c20Plan, c *stats.Case) error {
 	case "notintable":
 		id := specNode(self, 9000+p.SrcIdx, tableNodeSpec{Dist: 256, Fill: uint32(p.SrcIdx), IPClass: "public"}).ID()
 		src = &id
+	case "covered":
+		// the content came from a node that would itself be a gossip candidate: a covered table node, at any rank
+		var cov []enode.ID
+		for _, n := range tab.VerifNodeList() {
+			id := n.ID()
+			if r, ok := model[id]; ok && leToBig(r).Cmp(xorDist(id[:], contentID)) > 0 {
+				cov = append(cov, id)
+			}
+		}
+		sort.Slice(cov, func(i, j int) bool {
+			di, dj := enode.LogDist(cov[i], enode.ID(contentID)), enode.LogDist(cov[j], enode.ID(contentID))
+			if di != dj {
+				return di < dj
+			}
+			return bytes.Compare(cov[i][:], cov[j][:]) < 0
+		})
+		if len(cov) > 0 {
+			k := p.SrcIdx % len(cov)
+			if len(cov) >= 5 && p.SrcIdx%4 != 0 {
+				k = 4 + p.SrcIdx%(min(len(cov), 12)-4) // mostly a candidate behind the four closest
+			}
+			if k < 12 && len(cov) > k {
+				id := cov[k]
+				src = &id
+				if k >= 4 {
+					c.NT("source-is-covered-candidate-beyond-the-closest-four")
+				}
+			}
+		}
 	}
 	before := tab.VerifNodeList()
 	got, gerr := l.P.GossipAndReturnPeers(src, keys, contents)
@@ -435,7 +465,7 @@ func runC20(p c20Plan, c *stats.Case) error {
 	if len(possible) > 8 {
 		c.NT(">8-covered-candidates")
 	}
-	if src != nil && p.Source == "intable" {
+	if src != nil && (p.Source == "intable" || p.Source == "covered") {
 		for _, x := range all {
 			if x.id == *src && x.cov && lower(x.ld) < 4 {
 				c.NT("source-among-closest")
